@@ -7,6 +7,7 @@ usage: mutants.py [--property Cxx] [--only name] [--json out]
 Patch header lines (before the diff):
   # property: C16
   # expect: <substring that must appear in the violation output>
+  # expect: silent      (a behaviour-preserving rewrite: the check must NOT fire)
 """
 import json, os, re, shutil, subprocess, sys, tempfile, glob, argparse
 
@@ -46,6 +47,7 @@ def run_one(patch, only_prop=None):
     head = open(patch).read().split("\n--- ", 1)[0]
     props = re.findall(r"^# property:\s*(\S+)", head, re.M)
     expect = re.findall(r"^# expect:\s*(.+)$", head, re.M)
+    silent = any(e.strip() == "silent" for e in expect)
     res = {"mutant": os.path.basename(patch), "properties": props, "results": []}
     d = scratch_copy()
     try:
@@ -66,11 +68,21 @@ def run_one(patch, only_prop=None):
             out = r.stdout + r.stderr
             viol = [l for l in out.splitlines() if "rule " in l or "undecided" in l]
             hit = r.returncode == 1 and "VIOLATION property=" + prop in out
+            if silent:
+                # a behaviour-preserving rewrite: the check must stay quiet
+                quiet = r.returncode == 0 and "VIOLATION" not in out
+                res["results"].append({"property": prop, "exit": r.returncode, "detected": hit, "silent": quiet, "report": viol[:3] if not quiet else []})
+                if not quiet:
+                    ok = False
+                continue
             named = all(e.strip() in out for e in expect) if expect else True
             res["results"].append({"property": prop, "exit": r.returncode, "detected": hit, "names_construct": named, "report": viol[:3]})
             if not (hit and named):
                 ok = False
-        res["status"] = "detected" if ok else "MISSED"
+        if silent:
+            res["status"] = "silent" if ok else "FALSE-ALARM"
+        else:
+            res["status"] = "detected" if ok else "MISSED"
         return res
     finally:
         shutil.rmtree(d, ignore_errors=True)
@@ -97,7 +109,7 @@ def main():
                 print("      ", l.strip()[:220])
     if a.json:
         json.dump(out, open(a.json, "w"), indent=1)
-    missed = [r for r in out if r["status"] == "MISSED"]
+    missed = [r for r in out if r["status"] in ("MISSED", "FALSE-ALARM")]
     sys.exit(1 if missed else 0)
 
 if __name__ == "__main__":
